@@ -12,3 +12,25 @@ package getter
 //@   ensures [same-origin] forall r ref :: GauthSent[r] && !old(GauthSent)[r] ==> old(g.opts.passCredentialsAll) || sameOrigin(old(g.opts.url), href)
 //@   ensures [needs-both] forall r ref :: GauthSent[r] && !old(GauthSent)[r] ==> old(g.opts.username) != "" && old(g.opts.password) != ""
 //@   ensures [monotone] forall r ref :: old(GauthSent)[r] ==> GauthSent[r]
+
+// ---- C19: an option built by WithBasicAuth always overwrites the credentials (LocateChart strips
+// credentials for a foreign origin by appending WithBasicAuth("", "") — that must take effect),
+// and WithPassCredentialsAll / WithURL set exactly the field they name
+
+//@ func WithBasicAuth$1
+//@   props C19
+//@   requires opts != nil
+//@   ensures [overwrites-the-credentials] opts.username == username && opts.password == password
+//@   ensures [nothing-else] opts.passCredentialsAll == old(opts.passCredentialsAll) && opts.url == old(opts.url)
+
+//@ func WithPassCredentialsAll$1
+//@   props C19
+//@   requires opts != nil
+//@   ensures [sets-the-flag] opts.passCredentialsAll == pass
+//@   ensures [nothing-else] opts.username == old(opts.username) && opts.password == old(opts.password) && opts.url == old(opts.url)
+
+//@ func WithURL$1
+//@   props C19
+//@   requires opts != nil
+//@   ensures [sets-the-url] opts.url == url
+//@   ensures [nothing-else] opts.username == old(opts.username) && opts.password == old(opts.password) && opts.passCredentialsAll == old(opts.passCredentialsAll)
